@@ -149,7 +149,8 @@ Example C08_ex_sticky :
   snd (do_call repaired init (ex_call [] [3%nat])) = [0; 3]%nat.
 Proof. vm_compute. repeat split. Qed.
 
-(* a failure in a checking pass is not sticky: same error on retry, success once the fault is gone *)
+(* generality of the model: a pass whose failures are NOT recorded (prw = false; no default pass is declared so by the final
+   repair, a tree could): same error on retry, success once the fault is gone *)
 Example C08_ex_check_pass :
   let s1 := fst (fst (do_call repaired init (ex_call [(0%nat, 1%nat, 5)] [2%nat]))) in
   snd (fst (do_call repaired s1 (ex_call [(0%nat, 1%nat, 5)] [2%nat]))) = Some (CE 5) /\ failed s1 = [] /\
